@@ -12,7 +12,7 @@
 // goroutine count afterwards, and the result of a following uncancelled RunContext on the same Compiled.
 //
 // SEARCHER (Violate; oracle independent of the Lean model): wrong error identity; the run's own result
-// returned although the run did not finish; latency above the bound on three consecutive attempts (and a
+// returned although the run did not finish; latency above the bound on five consecutive attempts (and a
 // hard watchdog: "does not return"); goroutines not back to baseline within 2 s; the following uncancelled
 // run differs from a fresh run.
 // CORRESPONDENCE (Disagree): the observed (return class, dispatched count, dispatches after Abort) is not
@@ -81,6 +81,7 @@ type observation struct {
 	cancelled  bool          // cancel was called before the call returned
 	leaked     int           // goroutines above baseline after 2 s
 	globals    map[string]string
+	lockStuck  bool // GetAll after the return did not come back
 }
 
 func classOf(err error) string {
@@ -211,7 +212,15 @@ func runOnce(c *tengo.Compiled, mode string, k int64) observation {
 			wait *= 2
 		}
 	}
-	o.globals = snapshot(c)
+	// reading the variables takes the Compiled's lock: it must be free again
+	gch := make(chan map[string]string, 1)
+	go func() { gch <- snapshot(c) }()
+	select {
+	case o.globals = <-gch:
+	case <-time.After(hardWatchdog):
+		tainted = true
+		o.lockStuck = true
+	}
 	return o
 }
 
@@ -290,6 +299,11 @@ func checkCase(c *tengo.Compiled, p program, ref reference, mode string, k int64
 	o := runOnce(c, runMode, kk)
 	res.Count("cancel-at-k", p.Name+"|"+cancelName, mode == "at" || mode == "pre" || mode == "pre-deadline" || mode == "timeout")
 	res.Dist("mode:" + mode)
+	if o.lockStuck {
+		violate("compiled-locked-after-return", in, "GetAll after RunContext returned did not come back within "+hardWatchdog.String(),
+			"the lock is released when RunContext returns", "hard watchdog")
+		return
+	}
 	if !o.returned {
 		violate("runcontext-does-not-return-after-cancel", in, fmt.Sprintf("no return within %v (cancel called: %v, %d instructions dispatched)", hardWatchdog, o.cancelled, o.dispatched),
 			"RunContext returns within a bounded delay", "hard watchdog")
@@ -330,11 +344,11 @@ func checkCase(c *tengo.Compiled, p program, ref reference, mode string, k int64
 	if (mode == "never" || mode == "post") && cls == "ctx" {
 		violate("context-error-without-cancellation", in, fmt.Sprint(o.err), "the run's own result", "ctx was not cancelled before the return")
 	}
-	// --- latency (re-measured: a violation needs three consecutive slow returns)
+	// --- latency (re-measured: a violation needs five consecutive slow returns)
 	if o.cancelled && o.latency > latencyBound {
 		slow := 1
 		worst := o.latency
-		for a := 0; a < 2 && !tainted; a++ {
+		for a := 0; a < 4 && !tainted; a++ {
 			o2 := runOnce(c, runMode, kk)
 			if !o2.returned {
 				break
@@ -347,8 +361,8 @@ func checkCase(c *tengo.Compiled, p program, ref reference, mode string, k int64
 			}
 		}
 		res.Dist("latency-remeasured")
-		if slow == 3 {
-			violate("cancel-latency-above-bound", in, fmt.Sprintf("fastest of 3 attempts: %v", worst), "return within "+latencyBound.String()+" of cancel()", "wall clock, three consecutive attempts")
+		if slow == 5 {
+			violate("cancel-latency-above-bound", in, fmt.Sprintf("fastest of 5 attempts: %v", worst), "return within "+latencyBound.String()+" of cancel()", "wall clock, five consecutive attempts")
 		}
 	}
 	// --- goroutines
@@ -464,6 +478,11 @@ func checkProgram(p program, rng *lib.RNG, maxExhaustive int64, samples int) {
 			return
 		}
 		o := runOnce(fresh, "never", -1)
+		if o.lockStuck {
+			violate("compiled-locked-after-return", caseInput{Program: p.Name, Source: p.Src, Cancel: "never"}, "GetAll after RunContext returned did not come back within "+hardWatchdog.String(),
+				"the lock is released when RunContext returns", "hard watchdog")
+			return
+		}
 		if !o.returned {
 			violate("uncancelled-run-does-not-return", caseInput{Program: p.Name, Source: p.Src, Cancel: "never"}, "no return", "terminating program", "hard watchdog")
 			return
